@@ -1,6 +1,8 @@
 (* Props/C04.v — A task runs at most once and never after it was cancelled or finished. *)
 From GK Require Import SysCheck.
 From GK.Proofs Require Import SysSmall.
+From GK Require Import VSys.
+From GK.Proofs Require VSysProofs.
 
 (* a start consumes an acceptance by a worker: without a fresh acceptance there is no second start *)
 Theorem C04_start_consumes_acceptance : forall sc hc s id n snap s',
@@ -40,3 +42,17 @@ Print Assumptions C04_never_after_cancel.
 Theorem C04_predicate_holds : forall tr s, srun sys_init tr = Some s -> srun_ok sys_init tr -> c04_ok tr = true.
 Proof. exact c04_holds. Qed.
 Print Assumptions C04_predicate_holds.
+
+(* ---- second configuration: Scheduler over NewVolatileTaskRepo(CronStore) (model VSys.v) ----
+   for every schedule function, every scheduler configuration and every accepted trace no id starts twice *)
+Theorem C04_cron_at_most_once : forall nxt sc tr s,
+  VSysProofs.vrun nxt sc vsys_init tr = Some s -> NoDup (map (fun x => fst (fst x)) (vs_starts s)).
+Proof. exact VSysProofs.VC04_at_most_once. Qed.
+Print Assumptions C04_cron_at_most_once.
+
+(* the predicate evaluated on observed traces holds of every accepted trace that creates the store once, first
+   (the harness' traces do); with a second store the id book-keeping restarts: VSysProofs.V_two_stores_same_id *)
+Theorem C04_cron_predicate_holds : forall nxt sc tr s,
+  VSysProofs.vrun nxt sc vsys_init tr = Some s -> existsb VSysProofs.is_new (tl tr) = false -> vc04_ok tr = true.
+Proof. exact VSysProofs.VC04_predicate_holds. Qed.
+Print Assumptions C04_cron_predicate_holds.
